@@ -82,10 +82,15 @@ fn gen_file(rng: &mut Rng, alpha: &[&str], pool: &[String]) -> String {
         let ws: Vec<String> = (0..n)
             .map(|_| if rng.chance(0.7) { rng.pick(pool).clone() } else { gen_word(rng, alpha) })
             .collect();
-        let sep = match rng.below(12) {
+        let sep = match rng.below(16) {
             0 => "  ",
             1 => "\t",
             2 => "\u{00a0}",
+            // every kind of Unicode white space separates words, also the unusual ASCII ones
+            3 => "\u{000b}",
+            4 => "\u{000c}",
+            5 => "\u{2003}",
+            6 => "\u{3000}",
             _ => " ",
         };
         if rng.chance(0.08) {
